@@ -76,14 +76,16 @@ type LenFlow struct {
 	untrack map[types.Object]bool
 	taint   map[types.Object]bool
 	loops   map[types.Object]*lenLoop // loop variable -> canonical loop
+	subs    map[types.Object]LenSym   // single-definition sub-slices Y = X[lo:hi] with length-only bounds: len(Y)
 	loopCnd map[ast.Expr]bool
 	inRhs   map[ast.Expr]bool // sites under the right operand of && / || in a non-branch node
 }
 
 // LenSite is one index/slice expression on X.
 type LenSite struct {
-	Expr    ast.Expr // *ast.IndexExpr or *ast.SliceExpr
-	Verdict string   // "ok" | "violation" | "undecided" | "" (never reached)
+	Base    types.Object // nil: the tracked slice; else a followed sub-slice of it
+	Expr    ast.Expr     // *ast.IndexExpr or *ast.SliceExpr
+	Verdict string       // "ok" | "violation" | "undecided" | "" (never reached)
 	By      string
 	Msg     string
 	// Bounds lists, per reaching state, the symbolic bounds of a slice
@@ -431,6 +433,15 @@ func (lf *LenFlow) ValueSet(s S) (set string, sample int64, correlated, ok bool)
 	return strings.Join(parts, ","), sample, s.Get("u") != "", true
 }
 
+func (lf *LenFlow) isSub(e ast.Expr) bool {
+	id, ok := ast.Unparen(e).(*ast.Ident)
+	if !ok {
+		return false
+	}
+	_, is := lf.subs[ObjOf(lf.info, id)]
+	return is
+}
+
 func (lf *LenFlow) isLenOfX(e ast.Expr) bool {
 	if lf.Value {
 		return false
@@ -597,6 +608,82 @@ func (lf *LenFlow) prepare() {
 		return true
 	})
 
+	// --- sub-slices Y := X[lo:hi] whose bounds depend on the length only are
+	// followed one level: len(Y) is a symbolic value, Y[i] an obligation
+	lf.subs = map[types.Object]LenSym{}
+	derived := map[types.Object]*ast.SliceExpr{}
+	ndefs := map[types.Object]int{}
+	ast.Inspect(f.Body, func(x ast.Node) bool {
+		switch y := x.(type) {
+		case *ast.AssignStmt:
+			for i, l := range y.Lhs {
+				o := ObjOf(info, l)
+				if o == nil {
+					continue
+				}
+				if _, isIdent := ast.Unparen(l).(*ast.Ident); !isIdent {
+					continue
+				}
+				ndefs[o]++
+				if len(y.Lhs) == len(y.Rhs) && (y.Tok == token.DEFINE || y.Tok == token.ASSIGN) {
+					if se, ok := ast.Unparen(y.Rhs[i]).(*ast.SliceExpr); ok && lf.isX(se.X) {
+						derived[o] = se
+					}
+				}
+			}
+		case *ast.ValueSpec:
+			for i, nm := range y.Names {
+				if o := info.Defs[nm]; o != nil {
+					ndefs[o]++
+					if i < len(y.Values) {
+						if se, ok := ast.Unparen(y.Values[i]).(*ast.SliceExpr); ok && lf.isX(se.X) {
+							derived[o] = se
+						}
+					}
+				}
+			}
+		}
+		return true
+	})
+	probe := NewS().Set("L", lenDom{{0, lenInf}}.String())
+	for o, se := range derived {
+		if ndefs[o] != 1 || lf.untrack[o] || se.Max != nil {
+			continue
+		}
+		usedInLit := false
+		ast.Inspect(f.Body, func(x ast.Node) bool {
+			if fl, ok := x.(*ast.FuncLit); ok {
+				ast.Inspect(fl.Body, func(z ast.Node) bool {
+					if id, ok := z.(*ast.Ident); ok && ObjOf(info, id) == o {
+						usedInLit = true
+					}
+					return true
+				})
+				return false
+			}
+			return true
+		})
+		if usedInLit {
+			continue
+		}
+		lo, hi := LenSym{Kind: 'c'}, LenSym{Kind: 'l'}
+		ok1, ok2 := true, true
+		if se.Low != nil {
+			lo, ok1 = lf.EvalSym(se.Low, probe)
+		}
+		if se.High != nil {
+			hi, ok2 = lf.EvalSym(se.High, probe)
+		}
+		if !ok1 || !ok2 || lo.Kind != 'c' || (hi.Kind != 'c' && hi.Kind != 'l') {
+			continue
+		}
+		if hi.Kind == 'l' {
+			lf.subs[o] = LenSym{Kind: 'l', K: hi.K - lo.C}
+		} else {
+			lf.subs[o] = LenSym{Kind: 'c', C: hi.C - lo.C}
+		}
+	}
+
 	// --- static taint: variables whose value is correlated with len(X)
 	mentions := func(e ast.Expr) bool { return lf.mentionsStatic(e) }
 	for changed := true; changed; {
@@ -638,58 +725,57 @@ func (lf *LenFlow) prepare() {
 	}
 
 	// --- sites and short-circuit positions in non-branch nodes
-	var sites []ast.Expr
+	baseOf := func(e ast.Expr) (types.Object, bool) {
+		if lf.isX(e) {
+			return nil, true
+		}
+		if id, ok := ast.Unparen(e).(*ast.Ident); ok {
+			if o := ObjOf(info, id); o != nil {
+				if _, ok := lf.subs[o]; ok {
+					return o, true
+				}
+			}
+		}
+		return nil, false
+	}
 	ast.Inspect(f.Body, func(x ast.Node) bool {
+		var base ast.Expr
+		var e ast.Expr
 		switch y := x.(type) {
 		case *ast.FuncLit:
 			return false
 		case *ast.IndexExpr:
-			if lf.isX(y.X) {
-				sites = append(sites, y)
-			}
+			base, e = y.X, y
 		case *ast.SliceExpr:
-			if lf.isX(y.X) {
-				sites = append(sites, y)
+			base, e = y.X, y
+		}
+		if base != nil {
+			if b, ok := baseOf(base); ok {
+				st := &LenSite{Base: b, Expr: e}
+				lf.Sites = append(lf.Sites, st)
+				lf.site[e] = st
 			}
 		}
 		return true
 	})
-	for _, e := range sites {
-		st := &LenSite{Expr: e}
-		lf.Sites = append(lf.Sites, st)
-		lf.site[e] = st
-	}
-	// derived slices that are indexed themselves are not followed
-	derived := map[types.Object]bool{}
+	// other sub-slices that are indexed themselves are not followed
 	ast.Inspect(f.Body, func(x ast.Node) bool {
-		if as, ok := x.(*ast.AssignStmt); ok && len(as.Lhs) == len(as.Rhs) {
-			for i, r := range as.Rhs {
-				if se, ok := ast.Unparen(r).(*ast.SliceExpr); ok && lf.isX(se.X) {
-					if o := ObjOf(info, as.Lhs[i]); o != nil {
-						derived[o] = true
-					}
-				}
-			}
+		var base ast.Expr
+		switch y := x.(type) {
+		case *ast.IndexExpr:
+			base = y.X
+		case *ast.SliceExpr:
+			base = y.X
 		}
-		return true
-	})
-	if len(derived) > 0 {
-		ast.Inspect(f.Body, func(x ast.Node) bool {
-			var base ast.Expr
-			switch y := x.(type) {
-			case *ast.IndexExpr:
-				base = y.X
-			case *ast.SliceExpr:
-				base = y.X
-			}
-			if base != nil {
-				if o := ObjOf(info, base); o != nil && derived[o] && lf.Problem == "" {
+		if base != nil {
+			if o := ObjOf(info, base); o != nil && derived[o] != nil && lf.Problem == "" {
+				if _, followed := lf.subs[o]; !followed {
 					lf.Problem = fmt.Sprintf("sub-slice %s of the tracked slice is indexed itself (not followed)", o.Name())
 				}
 			}
-			return true
-		})
-	}
+		}
+		return true
+	})
 }
 
 func (lf *LenFlow) assignedIn(n ast.Node, o types.Object) bool {
@@ -831,16 +917,19 @@ func (lf *LenFlow) mentionsStatic(e ast.Expr) bool {
 		case *ast.FuncLit:
 			return
 		case *ast.IndexExpr:
-			if lf.isX(y.X) {
+			if lf.isX(y.X) || lf.isSub(y.X) {
 				return // an element of X is content, not length
 			}
 		case *ast.SliceExpr:
-			if lf.isX(y.X) {
+			if lf.isX(y.X) || lf.isSub(y.X) {
 				return
 			}
 		case *ast.Ident:
 			o := ObjOf(lf.info, y)
 			if o != nil && (o == lf.X || lf.taint[o]) {
+				found = true
+			}
+			if _, ok := lf.subs[o]; ok && o != nil {
 				found = true
 			}
 			return
@@ -883,11 +972,11 @@ func (lf *LenFlow) mentionsLen(e ast.Expr, s S) bool {
 		case *ast.FuncLit:
 			return false
 		case *ast.IndexExpr:
-			if lf.isX(y.X) {
+			if lf.isX(y.X) || lf.isSub(y.X) {
 				return false
 			}
 		case *ast.SliceExpr:
-			if lf.isX(y.X) {
+			if lf.isX(y.X) || lf.isSub(y.X) {
 				return false
 			}
 		case *ast.Ident:
@@ -927,6 +1016,13 @@ func (lf *LenFlow) EvalSym(e ast.Expr, s S) (LenSym, bool) {
 				return LenSym{}, false
 			}
 			return LenSym{Kind: 'l'}, true
+		}
+		if b, ok := Callee(lf.info, x).(*types.Builtin); ok && b.Name() == "len" && len(x.Args) == 1 && !lf.Value {
+			if id, ok := ast.Unparen(x.Args[0]).(*ast.Ident); ok {
+				if sub, ok := lf.subs[ObjOf(lf.info, id)]; ok && s.Has("L") {
+					return sub, true
+				}
+			}
 		}
 		// integer conversion that cannot truncate a length
 		if tv, ok := lf.info.Types[x.Fun]; ok && tv.IsType() && len(x.Args) == 1 {
@@ -1298,6 +1394,9 @@ func (lf *LenFlow) checkSite(st *LenSite, s S) {
 	}
 	corr := s.Get("u") != ""
 	L := lenLin{cL: 1, at: map[types.Object]int64{}, dv: map[string]int64{}}
+	if st.Base != nil {
+		L = lenSymLin(lf.subs[st.Base])
+	}
 	type goal struct {
 		g    lenLin
 		what string
